@@ -33,6 +33,16 @@ OpsOf(ty, exists) ==
 (* a hostile sender reaches these operations for every entry                  *)
 UnrequestedDataOps == {"open-basis", "create-temp", "rename", "chmod", "chtimes"}
 
+(* DEFERRED operations: some operations for an entry happen long after the generator handled it - the      *)
+(* permission touch-up of read-only directories after the transfer (generator.go touchUpDirs), the commit   *)
+(* of file data that arrives later (receiver.go) - and a LATER entry of the same list may meanwhile have     *)
+(* re-pointed a symlink on the first entry's path (through an alias of the root: c -> ., then c/b -> outside *)
+(* replaces b -> a).  Resolution happens at the time of USE and must refuse then.                           *)
+DeferredOps == {"touchup-chmod", "commit-create-temp", "commit-rename", "commit-chmod", "commit-chtimes"}
+LinkState == {"inside", "outside"}                    \* where the symlink on the path points when an operation runs
+DeferredLoc(stateAtUse) == IF stateAtUse = "outside" THEN "refused" ELSE "in"
+DeferredConfined == \A st \in LinkState : DeferredLoc(st) # "out"
+
 Escapes(name, abs, sentS) ==
   \/ NaiveLoc(name, abs, sentS, TRUE).reg = "out"
   \/ NaiveLoc(name, abs, sentS, FALSE).reg = "out"
